@@ -32,6 +32,17 @@ class Other(BaseModel):
     title: str
 
 
+def _twin():
+    """an equal-but-distinct schema: a different model that happens to carry the same class name"""
+    class Item(BaseModel):        # noqa: same __name__ as the module-level Item, different fields
+        sku: int
+        tags: list[str]
+    return Item
+
+
+TwinItem = _twin()
+
+
 VALID = '{"name": "widget", "price": 9.5}'
 OUTPUTS = {
     "valid": VALID,
@@ -43,8 +54,9 @@ OUTPUTS = {
     "other_schema": '{"title": "valid for another schema"}',
     "truncated": '{"name": "widget", "pri',
     "array": "[1, 2, 3]",
+    "twin_valid": '{"sku": 7, "tags": ["a"]}',      # valid for the namesake schema, not for Item
 }
-INVALID_KINDS = ["invalid_type", "missing", "garbage", "empty", "other_schema", "truncated", "array"]
+INVALID_KINDS = ["invalid_type", "missing", "garbage", "empty", "other_schema", "truncated", "array", "twin_valid"]
 
 
 class Boom(Exception):
@@ -137,7 +149,7 @@ def plan(tier):
             "require": {"generator_calls": 1000, "worker_steps": 1000, "provider_tool_rounds": 300,
                         "degraded_results": 20, "healed_results": 20, "swarm_success": 20,
                         "tool_loop_exhausted": 20, "heal_runs_with_stock_chaperone": 500, "echoed_outputs_checked": 200,
-                        "reentrant_tool_loops": 100, "thread_schedules": 1000}}
+                        "reentrant_tool_loops": 100, "thread_schedules": 1000, "prior_loops_on_namesake_schema": 300}}
 
 
 def run_case(ctx, n):
@@ -145,6 +157,7 @@ def run_case(ctx, n):
         kind, lim, i = SWEEP[n]
         if kind == "heal":
             case_heal(ctx, lim, HEAL_PROGS[i], 0.1)
+            case_heal(ctx, lim, HEAL_PROGS[i], 0.1, plain=True, prior_twin=True)
             return case_heal(ctx, lim, HEAL_PROGS[i], 0.1, plain=True)
         if kind == "swarm":
             return case_swarm(ctx, lim[0], lim[1], SWARM_PROGS[i], 0.9)
@@ -158,7 +171,9 @@ def run_case(ctx, n):
         prog = [rng.choice(toks) for _ in range(rng.randint(1, 7))]
         if rng.random() < 0.5:
             prog = [t if t not in ("valid", "fenced") else "missing" for t in prog[:-1]] + [prog[-1]]
-        return case_heal(ctx, rng.randint(0, 6), prog, rng.choice([0.0, 0.1, 0.5, 1.0]), plain=rng.random() < 0.5)
+        if rng.random() < 0.25:
+            prog = prog + ["twin_valid"]
+        return case_heal(ctx, rng.randint(0, 6), prog, rng.choice([0.0, 0.1, 0.5, 1.0]), plain=rng.random() < 0.5, prior_twin=rng.random() < 0.4)
     if kind == "swarm":
         prog = {"worker": rng.choice(["unique", "repeat", "empty", "two_cycle", "near"]), "marker_at": None,
                 "memory": rng.choice(["full", "full", "none", "window2", "prefilled"])}
@@ -185,7 +200,7 @@ def run_case(ctx, n):
 
 
 # ------------------------------------------------------------------ healing loop
-def case_heal(ctx, max_retries, prog, decay, plain=False):
+def case_heal(ctx, max_retries, prog, decay, plain=False, prior_twin=False, schema=None):
     from operon_ai.healing.chaperone_loop import ChaperoneLoop, HealingOutcome
     from operon_ai.organelles.chaperone import Chaperone
 
@@ -223,6 +238,20 @@ def case_heal(ctx, max_retries, prog, decay, plain=False):
             traces.append(r.error_trace)
             return r
 
+    if prior_twin:
+        # an earlier, unrelated healing loop in the same process: other schema of the same NAME, for which some of this program's
+        # outputs are valid; nothing it accepted may make this loop accept a structure that is not an Item
+        ctx.count("prior_loops_on_namesake_schema")
+        texts = [OUTPUTS[t] for t in prog if t in OUTPUTS] + ['{"sku": 7, "tags": ["a"]}']
+        it = iter(texts + texts)
+        prior = ChaperoneLoop(generator=lambda p_, e_=None: next(it, "{}"), chaperone=Chaperone(silent=True), schema=TwinItem,
+                              max_retries=len(texts), silent=True)
+        try:
+            prior.heal("make an item")
+            first = ChaperoneLoop(generator=lambda p_, e_=None: VALID, chaperone=Chaperone(silent=True), schema=Item, max_retries=0, silent=True)
+            first.heal("make an item")      # and a loop of THIS schema that accepted the valid text before
+        except Exception:
+            pass
     if plain:
         ctx.count("heal_runs_with_stock_chaperone")
     loop = ChaperoneLoop(generator=generator, chaperone=(Chaperone(silent=True) if plain else TaggingChaperone(silent=True)), schema=Item,
